@@ -210,6 +210,24 @@ def gen_c11(tier: str, rng: random.Random) -> Iterator[Dict[str, Any]]:
                 prog = decision_prog(decision) + [["recv_disc"]]
                 yield ws_session(carrier, 1, [{"s": "dt", "d": 0.05}], prog,
                                  "ws/c11/%s/offer-%d/%s" % (carrier, oi, decision), subprotos=offer)
+    # crossing closes: a message and the client's close frame arrive in one read, and the application answers the
+    # message by closing - its close crosses the echo of the client's (a client-initiated close all the same)
+    for carrier in ("h1", "h2"):
+        for appcode in (1000, 4001):
+            prog = [["recv"], ["send", {"type": "websocket.accept"}], ["recv"],
+                    ["send", {"type": "websocket.close", "code": appcode}], ["recv_disc"]]
+            ws_steps = [{"s": "ws", "op": "text_close", "pid": 8, "len": 3, "code": 4000}, {"s": "dt", "d": 0.05}]
+            yield ws_session(carrier, 1, ws_steps, prog, "ws/c11/%s/close/crossing/%d" % (carrier, appcode))
+    # ... and with the client not reading (every write of the server suspends): the client's close frame is
+    # processed, its echo is held up in the write, the application closes meanwhile; then the client reads again
+    for appcode in (1000, 4001):
+        prog = [["recv"], ["send", {"type": "websocket.accept"}], ["gate"],
+                ["send", {"type": "websocket.close", "code": appcode}], ["recv_disc"]]
+        ws_steps = [{"s": "dt", "d": 0.01}, {"s": "pause"}, {"s": "ws", "op": "close", "code": 4000}, {"s": "dt", "d": 0.01},
+                    {"s": "go", "app": "1", "n": 1}, {"s": "dt", "d": 0.01}, {"s": "resume"}, {"s": "dt", "d": 0.05}]
+        sc = ws_session("h1", 1, ws_steps, prog, "ws/c11/h1/close/crossing-while-client-not-reading/%d" % appcode)
+        sc["transport_high"] = 1
+        yield sc
     # closing orders and disconnect codes
     for carrier in ("h1", "h2"):
         for order in ("client-1000", "client-1001-reason", "client-nocode", "app-first", "app-code-4000", "simultaneous",
